@@ -164,6 +164,13 @@ func (cs *ContractSet) LoadFile(pkgPath, path string) error {
 			}
 			cs.byKey[k] = cur
 			cs.list = append(cs.list, cur)
+		case strings.HasPrefix(t, "package "):
+			// library contract files (/verif/lib/*.contracts) name the package they describe
+			if err := finish(); err != nil {
+				return err
+			}
+			pkgPath = strings.TrimSpace(t[8:])
+			cur = nil
 		case strings.HasPrefix(t, "macro "):
 			if err := finish(); err != nil {
 				return err
